@@ -147,7 +147,7 @@ def _p12c(ctx):
                 for a in g.call_args(n.id):
                     used = x.calls_in(a)
                     hit = [b for b in before if b.nid in used]
-                    if hit and n.id != U and not any(n.id == b.nid for b in before):
+                    if hit and x.rep(n.id) != x.rep(U) and not any(x.rep(n.id) == b.nid for b in before):
                         # retiring the replaced list after publication is the intended use
                         if re.search(r'ToFree|Vec(::<.*>)?::push$|mem::|ptr::mut_ptr', nm):
                             continue
@@ -222,21 +222,44 @@ def _p12d(ctx):
 
 def _w12(ctx):
     F = ctx.F
+    # (1) epochs are announced only where the operation saw the epoch bit of the signal word it loaded (the signal
+    # handlers, wherever their code lives) and by remove_token
+    from rules_extra import signal_bits, _const_of
+    bits = signal_bits(ctx)
     upd = callers_of(F, r'memory::MemoryManager::update_token$')
-    ok = all(re.search(r'::handle_signals$|MemoryManager::remove_token$', c) for c in upd) and len(upd) >= 3
-    ctx.add('W12', 'T-WHO', ctx.fn1(r'^memory::MemoryManager::update_token$'), ok,
-            'epochs are announced only by the signal handlers at the start of an operation and by remove_token' if ok else
-            'update_token is called from %s' % sorted(short_fn(c) for c in upd), sub='update_token')
-    for c in upd:
-        if c.endswith('::handle_signals'):
-            cc = callers_of(F, re.escape(c) + '$')
-            # handle_signals is reached only from the first statements of an operation: its callers call it before anything else
-            ctx.add('W12', 'T-WHO', c, len(cc) >= 1, 'handle_signals callers: %s' % sorted(short_fn(k) for k in cc), sub=short_fn(c))
+    ctx.floor('W12', len(upd), 3, 'functions calling MemoryManager::update_token')
+    for c in sorted(upd):
+        if re.search(r'MemoryManager::remove_token$', c):
+            ctx.add('W12', 'T-WHO', c, True, 'remove_token announces before it retires the token', sub='update_token')
+            continue
+        g = ctx.graph(c, 'MPMC')
+        x = g.x
+        sig = {a.nid for a in x.atoms_on('AtomicSignal.flags', ops={'load'})}
+
+        def _ep_bit(e_):
+            if e_[0] != 'bin' or e_[1] != 'BitAnd':
+                return False
+            for m, k in ((g.strip(e_[2]), _const_of(g, e_[3])), (g.strip(e_[3]), _const_of(g, e_[2]))):
+                if k == bits['set_epoch'][1] and (m[0] == 'call' and x.rep(m[1]) in sig or
+                                                   any(s_[0] == 'param' and s_[1] == g.root_inst for s_ in g.deep_walk(m))):
+                    return True
+            return False
+        _z, ep_edges, _h = x.zero_tests(_ep_bit)
+        calls = [n for n in x.inlined(r'memory::MemoryManager::update_token$') if x.home(n) == g.root_inst]
+        ok = bool(calls) and bool(ep_edges) and all(x.dom(ep_edges, n) for n in calls)
+        ctx.add('W12', 'T-WHO', c, ok, 'epoch announced only on the "epoch bit seen" edge of the signal word' if ok else
+                '%s calls update_token outside the "epoch bit of the loaded signal word is set" edge' % short_fn(c), sub='update_token')
+    # (2) retired objects are deleted only by try_freeing (all tokens announced) or by a destructor (exclusive access)
+    allowed_del = lambda f_: bool(re.search(r'MemoryManagerInner::try_freeing$|as std::ops::Drop>::drop$', f_))
     dele = callers_of(F, r'memory::ToFree::delete$')
-    okd = all(re.search(r'MemoryManagerInner::try_freeing$|as std::ops::Drop>::drop$', c) for c in dele) and len(dele) >= 2
+    owners = set()
+    for c in dele:
+        owners |= ctx.terminal_owners(c, allowed_del)
+    okd = all(allowed_del(c) for c in owners) and len(dele) >= 2
     ctx.add('W12', 'T-WHO', ctx.fn1(r'^memory::ToFree::delete$'), okd, 'retired objects are deleted only by try_freeing (all tokens announced) or by a destructor (exclusive access)' if okd else
-            'ToFree::delete is called from %s' % sorted(short_fn(c) for c in dele), sub='delete')
-    # direct deallocation of published classes
+            'ToFree::delete is reached from %s' % sorted(short_fn(c) for c in owners if not allowed_del(c)), sub='delete')
+    # (3) direct deallocation of published classes
+    allowed_de = lambda f_: bool(re.search(r'ReadCursor::(add_stream|remove_reader)$|as std::ops::Drop>::drop$|ToFree::new::do_free$', f_))
     for name, f in F.fns.items():
         for b in f['blocks']:
             if b['cleanup']:
@@ -245,9 +268,11 @@ def _w12(ctx):
             if t['k'] == 'call' and (t.get('fn') or '').endswith('alloc::deallocate'):
                 cls = (t.get('generics') or ['?'])[0]
                 if re.search(r'ReaderGroup|ReaderPos|MemToken', cls):
-                    ok = bool(re.search(r'ReadCursor::(add_stream|remove_reader)$|as std::ops::Drop>::drop$|ToFree::new::do_free$', name))
+                    own = ctx.terminal_owners(name, allowed_de)
+                    badown = sorted(short_fn(o) for o in own if not allowed_de(o))
+                    ok = not badown
                     ctx.add('W12', 'T-WHO', name, ok, 'direct deallocate::<%s> at a vetted site (never-published object / destructor)' % short(cls) if ok else
-                            'deallocate::<%s> called directly in %s: objects other threads may still read must go through MemoryManager::free' % (short(cls), short_fn(name)),
+                            'deallocate::<%s> called directly in %s (reached from %s): objects other threads may still read must go through MemoryManager::free' % (short(cls), short_fn(name), badown),
                             where='%s:%d' % (f['file'], b['line']), sub='dealloc|' + short(cls))
 
 
@@ -348,7 +373,7 @@ def _p13(ctx):
             c2 = all(not (x.reach_from(e_, blocked=set(reads)) & (set(g.exits) | set(x.ext_calls(r'Iterator::next$|::next$')))) for e_ in untag)
             # the value read is dropped
             c3 = all(any(r in x.calls_in(g.ev_place(g.nodes[d].inst, g.nodes[d].term['pl'])) for d in drops_) or g.call_name(r).endswith('drop_in_place') for r in reads)
-            rng = any(any(s[0] == 'fld' and s[2] == 'MultiQueue.capacity' for s in g.deep_walk(a)) for n in x.ext_calls(r'into_iter$') for a in g.call_args(n))
+            rng = any(any(s[0] == 'fld' and s[2] == 'MultiQueue.capacity' for s in g.deep_walk(a)) for a in x.loop_bounds())
             ok = c1 and c2 and c3 and rng and len(ops) == len(reads)
             ctx.add('P13c', 'T-GUARD', dq, ok, 'clone-out teardown drops exactly the untagged (ever written) slots of 0..capacity' if ok else
                     'clone-out teardown: read only untagged=%s, every untagged slot read=%s, value dropped=%s, over 0..capacity=%s, no other payload op=%s' % (c1, c2, c3, rng, len(ops) == len(reads)),
